@@ -794,35 +794,3 @@ PARTIAL = ['latex_depth_roundtrip is proved for the identity codec; with latexco
            'HTML / Markdown / LaTeX theorems assume ordinary URLs and tag names (no angle bracket; no ")" in Markdown link URLs; balanced braces in LaTeX): the code inserts both unescaped',
            'whole documents (write_to_stream) are tied by the correspondence only; no theorem is stated about them',
            'latexcodec itself is a measured table (encoder) / applied by the harness (decoder)']
-
-# ----------------------------------------------------------------------------------------
-# extraction cross-check: a sample of cases evaluated by Coq's vm_compute on `dispatch` itself
-def _coq_sx(v):
-    if isinstance(v, int):
-        return '(A (%d)%%Z)' % v
-    return '(L [' + '; '.join(_coq_sx(x) for x in v) + '])'
-
-def extra_checks(ck, tier, rng):
-    n = 40 if tier == 'quick' else 300
-    cases = []
-    for i in range(n):
-        k = i % 4
-        if k == 0:
-            cases.append((1, [rng.randrange(4), rng.choice([0, 1]), rand_tree(rng, 2, lambda r: rand_str(r, 4))]))
-        elif k == 1:
-            cases.append((2, [rng.randrange(4), rand_str(rng, 6)]))
-        elif k == 2:
-            cases.append((4, [rand_latex(rng, 2)]))
-        else:
-            cases.append((5, [rand_latex(rng, 2)]))
-    margs = [(fn, norm(model_arg(fn, norm(a)))) for fn, a in cases]
-    outs = ck.model.run(margs, ck.rundir, shards=1)
-    body = ['From Pybtex Require Import Base.Prelude.', 'Require Import C09.', 'Local Open Scope Z_scope.']
-    for i, ((fn, a), o) in enumerate(zip(margs, outs)):
-        body.append('Lemma xc_%d : dispatch %d %s = %s.\nProof. vm_compute. reflexivity. Qed.' % (i, fn, _coq_sx(a), _coq_sx(o)))
-    path = os.path.join(ck.rundir, 'C09_crosscheck.v')
-    open(path, 'w').write('\n'.join(body) + '\n')
-    rc, log = coqc_file(path, ck.rundir, extra_Q=[(os.path.join(VERIF, '_build', 'extract', 'c09'), '')])
-    fails = [] if rc == 0 else [('vm_compute cross-check', log[-600:], False)]
-    yield {'name': 'extraction_vs_vm_compute', 'evaluations': n, 'failures': fails,
-           'info': 'the extracted OCaml model and Coq\'s vm_compute agree on `dispatch` for a sample of generated cases'}
